@@ -7,7 +7,6 @@ import (
 	"go/format"
 	"go/token"
 	"path"
-	"slices"
 	"strconv"
 	"strings"
 
@@ -21,7 +20,17 @@ import (
 	"github.com/a-h/templ/parser/v2"
 )
 
-var internalImports = []string{"github.com/a-h/templ", "github.com/a-h/templ/runtime"}
+// isInternalImport reports whether the import is one of the two that the generated code adds by itself. An import
+// of the same package under another name is the template's own: the template's code refers to that name.
+func isInternalImport(imp *ast.ImportSpec) bool {
+	switch strings.Trim(imp.Path.Value, "\"") {
+	case "github.com/a-h/templ":
+		return imp.Name == nil
+	case "github.com/a-h/templ/runtime":
+		return imp.Name != nil && imp.Name.Name == "templruntime"
+	}
+	return false
+}
 
 func convertTemplToGoURI(templURI string) (isTemplFile bool, goURI string) {
 	base, fileName := path.Split(templURI)
@@ -45,9 +54,10 @@ func updateImports(name, src string) (updated []*ast.ImportSpec, err error) {
 		return updated, fmt.Errorf("failed to get imports from updated go code: %w", err)
 	}
 	for _, imp := range gofile.Imports {
-		if !slices.Contains(internalImports, strings.Trim(imp.Path.Value, "\"")) {
-			updated = append(updated, imp)
+		if isInternalImport(imp) {
+			continue
 		}
+		updated = append(updated, imp)
 	}
 	return updated, nil
 }
